@@ -3526,6 +3526,9 @@ func TestQueue_setPreemptionTime(t *testing.T) {
 		{"max lowered again", resources.NewResourceFromMap(map[string]resources.Quantity{"test": 100}), map[string]string{"test": "10"}, resources.NewResourceFromMap(map[string]resources.Quantity{"test": 110}), 10, 10, true, false},
 		{"max lowered again but usage is lesser than newer max", resources.NewResourceFromMap(map[string]resources.Quantity{"test": 100}), map[string]string{"test": "10"}, resources.NewResourceFromMap(map[string]resources.Quantity{"test": 5}), 10, 10, true, true},
 		{"max lowered again 2nd", resources.NewResourceFromMap(map[string]resources.Quantity{"test": 100}), map[string]string{"test": "10"}, nil, 10, 5, true, true},
+		{"max changed in different directions 2nd", resources.NewResourceFromMap(map[string]resources.Quantity{"test": 100, "other": 10}), map[string]string{"test": "50", "other": "100"}, resources.NewResourceFromMap(map[string]resources.Quantity{"test": 110}), 10, 10, true, false},
+		{"max changed in different directions 2nd with delay change", resources.NewResourceFromMap(map[string]resources.Quantity{"test": 100, "other": 10}), map[string]string{"test": "50", "other": "100"}, resources.NewResourceFromMap(map[string]resources.Quantity{"test": 110}), 5, 10, true, true},
+		{"max changed in different directions no start", resources.NewResourceFromMap(map[string]resources.Quantity{"test": 100, "other": 10}), map[string]string{"test": "50", "other": "100"}, resources.NewResourceFromMap(map[string]resources.Quantity{"test": 110}), 5, 10, false, false},
 	}
 	for _, tt := range tests {
 		t.Run(tt.name, func(t *testing.T) {
